@@ -17,7 +17,7 @@ func init() {
 		explanation: "Decided from the path summaries of slices/sorted.go (and the sentinel discipline package-wide): who may write the backing slice and how, that nothing aliases it, that positions come from a lower-bound search and are validated with ==, and that the -1 sentinel never reaches an index. " +
 			"(sentinel-guard) a value returned by a function that can return the literal -1 never reaches an index/slice expression or an index parameter unless a comparison excluding -1 dominates the use; (encapsulation) Sorted.slice is written only through Insert in Add and through Remove in Remove/RemoveAt, never returned or handed to another callee that could keep or write it; " +
 			"(input-copied) NewSorted builds its slice with make+copy on every path and never writes or sorts its argument; (sorted-on-entry) it sorts that fresh copy with a less(s[i],s[j]) adapter; (insert-at-search) Add inserts at, and returns, search(value); (lower-bound) search is sort.Search over the whole length with the predicate !less(s[i], value); " +
-			"(index-validates) Index returns a non-sentinel only after s[i]==value with 0<=i<Len; (remove-validated) Remove deletes only at a position that Index validated, returns that position, and on the other path returns -1 having changed nothing; (position) Get/RemoveAt act on exactly the given index. " +
+			"(index-validates) Index returns a non-sentinel only after s[i]==value with 0<=i<Len; (remove-validated) Remove deletes only at a position that Index validated, returns that position, and on the other path - taken only when Index(value) is known to be -1 - returns -1 having changed nothing; (position) Get/RemoveAt act on exactly the given index. " +
 			"NOT decided: that these compose to 'sorted after every history' (needs sort.Search's semantics on sorted data - trusted - plus the splice clauses of C12).",
 		assumptions: []string{"contracts of sort.Search and sort.SliceStable", "slices.Insert/Remove splice exactly one element at the given index (property C12)"},
 	})
